@@ -104,6 +104,12 @@ def polygons_2d():
 
 
 def star_polygon(n, seed):
+    """star-shaped (hence simple) polygon: jittered equally spaced directions, one radius per vertex;
+    consecutive directions differ by less than pi"""
     rnd = random.Random(seed)
-    angs = sorted(rnd.uniform(0, 2 * math.pi) for _ in range(n))
-    return [((0.4 + rnd.random()) * math.cos(a), (0.4 + rnd.random()) * math.sin(a)) for a in angs]
+    angs = [2 * math.pi * (k + 0.8 * rnd.random()) / n for k in range(n)]
+    out = []
+    for a in angs:
+        r = 0.4 + rnd.random()
+        out.append((r * math.cos(a), r * math.sin(a)))
+    return out
